@@ -106,6 +106,7 @@ def run(tier, seed, build, res):
     for i in range(0, len(cases), 2000):
         universe.run(cases[i:i + 2000], res, 'parser', project, oracle_all,
                      sample_rule=lambda c, im: True)
+    universe.heading_finding('C03', res)
 
 
 def replay(payload, build, res):
